@@ -44,6 +44,12 @@ RMBODY = {
     "nowaiters": ("unreachable", r"^slab::Slab::<.*>::insert /|^slab::Slab::<.*>::iter_mut /|^slab::Slab::<.*>::remove /|^slab::Slab::<.*>::try_remove /|^std::sys::sync::mutex::futex::Mutex::lock_contended /|^std::sys::sync::mutex::futex::Mutex::wake /"),
     # close() harnesses start from a writeable request: writeable() returns at once, poll_input must be unreachable
     "nopollinput": ("unreachable", r"^async_io::Request::<.*>::poll_input /"),
+    # close() harnesses that start AT a record boundary: record_boundary() returns at once, so the stream parser, the
+    # reply flush and the reader must be unreachable (proved).  Needed because a future awaited inside another async fn
+    # lives in the outer coroutine's variant union, where CBMC loses the constant value of the inner state
+    # discriminant and explores every resume point of the inner state machine; with these bodies cut those
+    # explorations die at their first call
+    "noparse": ("unreachable", r"^parser::stream::Parser::<'_>::parse /|^async_io::Request::<.*>::poll_output /"),
     "nogrow": ("unreachable", r"raw_vec::RawVecInner::grow_amortized /|raw_vec::RawVecInner::grow_exact /|SmallVec::<.*>::try_grow /"),
 }
 
@@ -77,6 +83,8 @@ def ensure_wrap():
     return w
 
 DEFAULT_MEM_GB = 12
+# stubs that do not consume nondeterministic values and do not change what the harness observes
+BENIGN_STUBS = {"fixed_random_state", "fmt_format_stub", "full_fence_noop", "smallvec_with_capacity_model", "ensure_read_id"}
 
 
 # ----------------------------------------------------------------------------- registry
@@ -125,6 +133,14 @@ def registry():
                 if name in regs:
                     raise SystemExit("duplicate harness name " + name)
                 regs[name] = Harness(name, rel, kv, bound.strip(), funcs.strip(), i + 1)
+                # stubs that replace behaviour by a nondeterministic model / contract (everything except the benign ones)
+                own = re.split(r"(?m)^(?:pub(?:\(crate\))? )?fn |^\w+!\(", blob)[0]      # attributes of THIS harness only
+                mm = re.search(r"(?m)^(\w+)!\(\s*%s\b" % re.escape(name), blob)
+                if mm:      # harness generated by a macro: its stub attributes are in the macro definition
+                    md = re.search(r"macro_rules! %s \{.*?\n\}\n" % mm.group(1), "\n".join(lines), re.S)
+                    own += md.group(0) if md else ""
+                regs[name].model_stubs = [x for x in re.findall(r"#\[kani::stub\([^,]+,\s*([\w:]+)\)\]", own)
+                                          if x.split("::")[-1] not in BENIGN_STUBS]
                 i = j
             else:
                 i += 1
@@ -168,6 +184,8 @@ def parse_log(text):
         r["symex_s"] += float(m.group(1))
     for m in re.finditer(r"^size of program expression: (\d+) steps", text, re.M):
         r["steps"] = max(r["steps"], int(m.group(1)))
+    mr = re.findall(r"^VERIF_MAXRSS_KB=(\d+)", text, re.M)
+    r["peak_rss_gb"] = round(max(int(x) for x in mr) / 1048576.0, 1) if mr else None
     m = re.search(r"^Verification Time: ([0-9.]+)s", text, re.M)
     if m:
         r["verif_s"] = float(m.group(1))
@@ -179,7 +197,7 @@ def parse_log(text):
 
 
 def classify(rc, text, parsed, dead=0):
-    """-> (status, detail).  status in PASS FAIL UNWIND VACUOUS TIMEOUT OOM COMPILE ERROR"""
+    """-> (status, detail).  status in PASS FAIL UNWIND CUT VACUOUS TIMEOUT OOM COMPILE ERROR"""
     if rc == 124 or rc == 137 and "Killed" not in text and parsed["verdict"] is None and "timeout" in text.lower():
         return "TIMEOUT", "time limit reached"
     if re.search(r"^error(\[E\d+\])?:", text, re.M) and "Compiling" in text and parsed["verdict"] is None and \
@@ -204,6 +222,11 @@ def classify(rc, text, parsed, dead=0):
         return "PASS", ""
     # FAILED
     real = [f for f in parsed["failed"] if "unwinding assertion" not in f["desc"]]
+    # E8 "unreachable" cuts that the code DOES reach: the harness's scenario no longer matches the code.  That is a
+    # violated assumption of the harness (inconclusive), never a property violation.
+    cut = [f for f in real if "with missing definition is unreachable" in f["desc"]]
+    if cut and len(cut) == len(real):
+        return "CUT", "the code reaches a function this harness assumes unreachable (E8): " + "; ".join(sorted(set(f["loc"].split(" in function ")[-1] for f in cut)))[:600]
     if not real and parsed["failed"]:
         return "UNWIND", "unwinding bound too small: " + "; ".join(sorted(set(f["loc"] for f in parsed["failed"])))[:400]
     if not real:
@@ -214,7 +237,9 @@ def classify(rc, text, parsed, dead=0):
 # ----------------------------------------------------------------------------- execution
 def sh(cmd, cwd, log, timeout, mem_gb, rmbody="", unwindset=""):
     kb = mem_gb * 1024 * 1024
-    wrapped = "ulimit -v %d; exec timeout -k 10 %d %s" % (kb, timeout, " ".join(map(shquote, cmd)))
+    # GNU time reports the peak resident size of the largest process of the run (the solver): used for scheduling only
+    tm = "/usr/bin/time -f VERIF_MAXRSS_KB=%M " if os.path.exists("/usr/bin/time") else ""
+    wrapped = "ulimit -v %d; exec %stimeout -k 10 %d %s" % (kb, tm, timeout, " ".join(map(shquote, cmd)))
     env = dict(scratch.ENV)
     if unwindset:
         env["KANI_HOME"] = ensure_wrap()
@@ -341,16 +366,25 @@ def playback(h, crate, tdir, rundir, prop):
         for t in tests:
             f.write(t + "\n")
             names += re.findall(r"fn (kani_concrete_playback_\w+)", t)
+    if getattr(h, "model_stubs", None):
+        # Kani's native playback cannot apply #[kani::stub]: natively the REAL function runs where the solver's
+        # counterexample used the contract/model, so the recorded value sequence does not line up.  The counterexample
+        # is a violation of the harness's claim "for every behaviour the contract allows"; it is reported with the
+        # concrete values, not replayed natively.
+        with open(rpath, "a") as f:
+            f.write("// NOTE: harness uses model/contract stubs (%s): counterexample is at the level of that model; "
+                    "native replay is not applicable.\n" % ", ".join(h.model_stubs))
+        return True, rpath, "model-level counterexample (stubs: %s); native replay not applicable" % ", ".join(h.model_stubs)
     ok, note = run_replay(h, crate, rpath, names, rundir)
     return ok, rpath, note
 
 
 def run_replay(h, crate, rpath, names, rundir):
     """Attach the replay file to the harness module of the scratch crate and run the tests natively."""
-    src = os.path.join(crate, "src", h.file)
+    src = os.path.join(crate, "src", scratch.src_of(h.file))
     s = open(src).read()
     snap = os.path.join(os.path.dirname(crate), "harness", h.file)
-    marker = "pub(crate) mod verif_kani { include!(\"%s\");" % snap
+    marker = "pub(crate) mod %s { include!(\"%s\");" % (scratch.modname(h.file), snap)
     if marker not in s:
         return None, "harness module marker not found"
     s2 = s.replace(marker, marker + " include!(\"%s\");" % rpath)
@@ -385,8 +419,12 @@ def run_replay(h, crate, rpath, names, rundir):
                 notes.append("%s: replay did not run (rc=%d)" % (prof, p.returncode))
                 reproduced[prof] = None
             else:
-                reproduced[prof] = int(m.group(3)) > 0
                 pm = re.findall(r"panicked at [^\n]*\n[^\n]*", out)
+                # a replay that only trips a kani::assume did not follow the solver's trace: that is no reproduction
+                real = [x for x in pm if "`kani::assume` should always hold" not in x]
+                reproduced[prof] = (int(m.group(3)) > 0 and bool(real)) if int(m.group(3)) > 0 else False
+                if int(m.group(3)) > 0 and not real:
+                    reproduced[prof] = None
                 notes.append("%s: %s passed, %s failed%s" % (prof, m.group(2), m.group(3),
                                                             (" :: " + pm[0].replace("\n", " ")) if pm else ""))
     finally:
@@ -456,7 +494,14 @@ def main(argv):
         timings = json.load(open(os.path.join(VERIF, "lib", "timings.json")))
     except Exception:
         timings = {}
-    sel.sort(key=lambda h: -timings.get(h.name, (h.timeout or 0)))
+    def _t(h):
+        v = timings.get(h.name)
+        return (v[0] if isinstance(v, list) else v) if v is not None else (h.timeout or 0)
+    sel.sort(key=lambda h: -_t(h))
+    for h in sel:       # expected peak memory: measured (plus a margin) where known, else the annotation
+        v = timings.get(h.name)
+        if isinstance(v, list) and v[1]:
+            h.est = max(2, int(v[1] * 1.3 + 1))
 
     run_id = "%s-%s-%d-%d" % (prop, a.tier, os.getpid(), int(t0))
     files = set(h.file for h in sel)
@@ -479,6 +524,7 @@ def main(argv):
         return 2
     os.makedirs(os.path.join(rundir, "logs"))
     rc = 2
+    extra_rundirs = []
     try:
         if a.replay:
             h = next((h for h in sel if os.path.basename(a.replay)[:-3] == h.name), None)
@@ -505,6 +551,39 @@ def main(argv):
         print("check %s tier=%s harnesses=%d jobs=%d scratch=%s" % (prop, a.tier, len(sel), a.jobs, rundir), flush=True)
         results = run_pool(jobs, crate, dep, rundir, min(a.jobs, len(jobs)), on_done)
 
+        # A harness file that no longer compiles (typically a one-step lemma whose private helper function changed its
+        # signature) breaks the build for every harness of the run.  Retry the harnesses of the OTHER files without it:
+        # they are reported normally, the harnesses of the broken file stay INCONCLUSIVE (COMPILE).
+        comp = [h for h in sel if results[h.name]["status"] == "COMPILE"]
+        if comp:
+            text = open(results[comp[0].name]["log"], errors="replace").read()
+            broken = set(rel for rel in files if re.search(r"-->\s*\S*harness/%s:\d+" % re.escape(rel), text))
+
+            def need(rel, seen=None):
+                seen = seen if seen is not None else set()
+                if rel in seen:
+                    return seen
+                seen.add(rel)
+                for m in re.finditer(r"^// @requires (\S+)", open(hf[rel]).read(), re.M):
+                    need(m.group(1), seen)
+                return seen
+            retry = [h for h in comp if not (need(h.file) & broken)]
+            if broken and retry and "lib.rs" not in broken:
+                files2 = sorted(set().union(*[need(h.file) for h in retry]))
+                print("  harness file(s) %s do not compile against this source; retrying %d harness(es) of the other files without them"
+                      % (", ".join(sorted(broken)), len(retry)), flush=True)
+                rundir2, crate2 = scratch.make_scratch(run_id + "-b", files2, a.patch)
+                os.makedirs(os.path.join(rundir2, "logs"))
+                try:
+                    jobs2 = [(h, t) for (h, t) in jobs if h in retry]
+                    res2 = run_pool(jobs2, crate2, dep, rundir2, min(a.jobs, len(jobs2)), on_done)
+                    for h in retry:
+                        results[h.name] = res2[h.name]
+                        results[h.name]["crate"] = crate2
+                        results[h.name]["rundir"] = rundir2
+                finally:
+                    extra_rundirs.append(rundir2)
+
         known = load_known()
         violations, known_hits, inconclusive = [], [], []
         for h in sel:
@@ -512,12 +591,13 @@ def main(argv):
             if r["status"] == "PASS":
                 continue
             if r["status"] == "FAIL":
-                real = [f for f in r["parsed"]["failed"] if "unwinding assertion" not in f["desc"]]
+                real = [f for f in r["parsed"]["failed"] if "unwinding assertion" not in f["desc"]
+                        and "with missing definition is unreachable" not in f["desc"]]
                 matched, unmatched = match_known(prop, h, real, known)
                 for f, k in matched:
                     known_hits.append((h, f, k))
                 if unmatched:
-                    ok, rpath, note = playback(h, crate, r["slot_target"], rundir, prop)
+                    ok, rpath, note = playback(h, r.get("crate", crate), r["slot_target"], r.get("rundir", rundir), prop)
                     r["replay"] = {"reproduced": ok, "path": rpath, "note": note}
                     if ok:
                         violations.append((h, [f for f, _ in unmatched], rpath, note))
@@ -556,6 +636,8 @@ def main(argv):
             print("scratch kept at " + rundir)
         else:
             scratch.remove(rundir)
+            for d in extra_rundirs:
+                scratch.remove(d)
 
 
 def write_evidence(prop, a, seed, t0, sel, results, violations, known_hits, inconclusive, rundir):
@@ -587,7 +669,7 @@ def write_evidence(prop, a, seed, t0, sel, results, violations, known_hits, inco
         samples.append({"harness": h.full, "bound": h.bound, "status": r["status"], "wall_s": r["wall_s"],
                         "solver_checks": p["checks"], "unreachable_checks": p["unreachable"],
                         "cover_witnesses_satisfied": sat, "program_steps": p["steps"],
-                        "sat_vars": p["vars"], "sat_clauses": p["clauses"],
+                        "sat_vars": p["vars"], "sat_clauses": p["clauses"], "peak_rss_gb": p.get("peak_rss_gb"),
                         "detail": r["detail"][:400], "replay": r.get("replay")})
     ev = {
         "property_id": prop, "tier": a.tier, "seed": seed, "level": "model_checking",
